@@ -87,7 +87,10 @@ def proj(prop, lines):
                 out.append(tuple(l['item']))
     elif prop == 'C03':
         for l in lines:
-            out.append((tuple(l['S'][:2]) if l['S'] else None, tuple(a[1] for a in l['logs']), l['item'][0]))
+            # active rule set, which rules' actions ran, which rule produced the token (only rules of the
+            # active rule set may match)
+            out.append((tuple(l['S'][:2]) if l['S'] else None, tuple(a[1] for a in l['logs']), l['item'][0],
+                        l['item'][2] if l['item'][0] == 'ok' else None))
     elif prop == 'C05':
         for l in lines:
             out.append((l['item'][0], l['S'][2] if l['S'] else None, l['item'][1] if len(l['item']) > 1 else None,
